@@ -12,6 +12,7 @@ import itertools
 import pydsdl
 
 from .. import engine
+from .. import histories as H
 from ..gen import types as T
 from ..gen import values as V
 from ..ref import codec as C
@@ -149,10 +150,14 @@ def plan(tier):
         fams.append(("depth3", 32))
     shards = [{"family": n, "part": p, "parts": k} for n, k in fams for p in range(k)]
     shards += [{"family": "aliases", "part": p, "parts": 8} for p in range(8)]
+    shards += H.plan_shards(['nested-revisions', 'delimited-revisions'], 2)
     return shards
 
 
 def cases(shard, tier):
+    if shard.get("kind") == "call-histories":
+        yield from H.cases_of(shard)
+        return
     if shard["family"] == "aliases":
         # operation histories on DISTINCT types that share one full name (same or different version): process-wide state
         # keyed by a type's name instead of the type would make the outcome depend on what was serialized before
@@ -227,11 +232,14 @@ _cache: dict = {}
 
 
 def check_case(case, R: engine.Acc):
+    if case.get("kind") == "call-history":
+        return H.check_history_codec(case["label"], R, 'codec-depends-on-earlier-calls', 'serialize / deserialize use the layout of the type as read in THIS call')
     if "alias" in case:
         return check_alias(case, R)
     desc = case["desc"]
     only = case.get("value_index")
     t = T.build(desc)
+    T.spoil_accessors(t)  # a caller that modifies the lists the accessors hand out changes nothing
     vals = V.values(desc, cap=case.get("cap", 24))
     sub = has_subbyte(desc)
     # the implementation's own numerical expansion, when small (membership oracle)
